@@ -3,7 +3,7 @@
 From MMD.lib Require Import Bytes Utf8.
 From MMD.gen Require Import CharTable.
 From MMD.model Require Import LabelModel MetaModel.
-From MMD.proofs Require Import MetaProofs LabelProofs EscaperProofs.
+From MMD.proofs Require Import MetaProofs LabelProofs EscaperProofs MetaRoundTrip.
 Local Open Scope N_scope.
 
 (* a key - a letter or digit followed by letters, digits, blanks, '_', '-', '.' - directly followed by
@@ -26,6 +26,33 @@ Proof.
   rewrite forallb_forall in H. apply N.ltb_lt, H, Hb.
 Qed.
 Print Assumptions meta_normalisation_preserves_utf8.
+
+(* the multi-key round trip: a block written as one "key:value" line per entry - any number of entries, keys
+   with blanks, values with any bytes except line endings, the first value not blank - followed by the end of
+   the text or by an empty line and ANY body, is read back as exactly those entries, in their order, each
+   at its offset, with its normalised key and the cleaned text of the rest of its line; the block ends
+   exactly where the last entry line ends (so no byte of the body is taken for metadata and none of the
+   block is left to the body) *)
+Theorem meta_block_roundtrip :
+  forall ws e1 r tail,
+  forallb wf_entry (e1 :: r) = true -> forallb is_ws (snd e1) = false -> tail_ok tail ->
+  meta_parse ws (block_text (e1 :: r) ++ tail) = Some (result ws (e1 :: r), length (block_text (e1 :: r))).
+Proof. exact meta_roundtrip. Qed.
+Print Assumptions meta_block_roundtrip.
+
+(* and for an ordinary value - words separated by single blanks, no backslash, ampersand or other white
+   space - the cleaned text is the value itself: what was written is what is reported *)
+Theorem meta_simple_value_unchanged :
+  forall v, v <> [] -> simpleb is_whitespace_or_line_ending true v = true ->
+  clean_string is_whitespace_or_line_ending false false (v ++ [10]) = v.
+Proof. intros v. apply clean_simple_value. vm_compute. reflexivity. Qed.
+Print Assumptions meta_simple_value_unchanged.
+
+(* a value ending in a backslash is the case the restriction excludes: the backslash and the line ending
+   form a hard break which is then trimmed *)
+Example meta_value_trailing_backslash :
+  clean_string is_whitespace_or_line_ending false false ([97; 92] ++ [10]) = [97].
+Proof. vm_compute. reflexivity. Qed.
 
 (* worked instances of the whole extraction, incl. end of input without newline, continuation
    lines and a key with blanks before the colon *)
